@@ -575,6 +575,15 @@ def check_algebra(case):
             return o.violation("matrix-product:%s" % what.split()[1], "%s = %r, expected %r" % (what, mtuple(got), gen.mat_mul(A, B)))
     if mtuple(mA) != sA or mtuple(mB) != sB:
         return o.violation("operand-modified:@", "a product form changed an operand")
+    # a matrix multiplied by itself: both operands are the one object
+    AA = gen.mat_mul(A, A)
+    for what, how in (("A * A", lambda m: m * m), ("A @ A", lambda m: m @ m), ("A *= A", lambda m: m.__imul__(m)), ("A @= A", lambda m: m.__imatmul__(m)),
+                      ("A.post_cat(A)", lambda m: (m.post_cat(m), m)[1]), ("A.pre_cat(A)", lambda m: (m.pre_cat(m), m)[1])):
+        m = lib.mk_matrix(A)
+        got = how(m)
+        if not mclose(mtuple(got), AA, 1e-9 * nA * nA):
+            return o.violation("self-product:%s" % what.split()[1 if " " in what else 0], "%s = %r for A = %r, expected %r" % (what, mtuple(got), A, AA))
+    o.label("self-product")
     # elementary constructors = the elementary matrices the pre_/post_ operations multiply by
     for op, args in [(o_[1], o_[2]) for o_ in case["ops"]]:
         ctor = {"translate": lambda a: se.Matrix.translate(a[0], a[1]), "translate_x": lambda a: se.Matrix.translate_x(a[0]), "translate_y": lambda a: se.Matrix.translate_y(a[0]),
